@@ -362,10 +362,22 @@ class Interp:
         raise NeedConcrete('unary op')
 
     def ex_BoolOp(self, n):
-        vals = [to_bool(self.ev(v)) for v in n.values]   # kernel operands are side-effect free
-        r = vals[0]
-        for v in vals[1:]:
-            r = b_and(r, v) if isinstance(n.op, ast.And) else b_or(r, v)
+        # short-circuit semantics: a later operand is evaluated only under the guard that the earlier ones did not decide
+        # (`i < N and f(a[i])` must not index a[N]); operands are side-effect free, so the values are merged
+        is_and = isinstance(n.op, ast.And)
+        r = to_bool(self.ev(n.values[0]))
+        for v in n.values[1:]:
+            if (r is False and is_and) or (r is True and not is_and):
+                return r
+            if r is True or r is False:
+                r = to_bool(self.ev(v))
+                continue
+            self.guard_stack.append(b_and(self.guard_stack[-1], r if is_and else b_not(r)))
+            try:
+                nxt = to_bool(self.ev(v))
+            finally:
+                self.guard_stack.pop()
+            r = b_and(r, nxt) if is_and else b_or(r, nxt)
         return r
 
     def ex_IfExp(self, n):
